@@ -293,3 +293,30 @@ Lemma taxyears_plain ns :
 Proof.
   induction 1 as [|n ns R _ IH]; [reflexivity|]. cbn [map taxyear_elems]. rewrite (taxyear_plain n R). cbn [bind]. rewrite IH. reflexivity.
 Qed.
+
+(** one wrapper per request of the kind: a message set is absent exactly when no request of its kinds was made *)
+Lemma W_length c l : forall us, List.length us = List.length l -> List.length (W c l us) = List.length l.
+Proof. intros us L. unfold W. rewrite map_length, combine_length, L. apply Nat.min_id. Qed.
+Lemma statements_closed_full :
+  (forall c uuids d pw gen reqs r,
+    request_statements c uuids d pw gen reqs = OK r ->
+    exists u0 u1 u2 u3 u4 rest,
+      uuids = (u0 ++ u1 ++ u2 ++ u3 ++ u4 ++ rest)%list
+      /\ List.length u0 = List.length (of_kind KCcStmtEnd reqs) /\ List.length u1 = List.length (of_kind KCcStmt reqs)
+      /\ List.length u2 = List.length (of_kind KInvStmt reqs) /\ List.length u3 = List.length (of_kind KStmtEnd reqs)
+      /\ List.length u4 = List.length (of_kind KStmt reqs)
+      /\ c_body r = Node (T "OFX") None
+           (spec_signon c d (userid c) pw
+            :: olist (mset MBank (W c (of_kind KStmtEnd reqs) u3 ++ W c (of_kind KStmt reqs) u4))
+            ++ olist (mset MCc (W c (of_kind KCcStmtEnd reqs) u0 ++ W c (of_kind KCcStmt reqs) u1))
+            ++ olist (mset MInv (W c (of_kind KInvStmt reqs) u2)))%list
+      /\ header_text (version c) (if gen then hd_error rest else None) = OK (c_header r)
+      /\ negb (close_elements c) && (200 <=? version c) = false)
+  /\ (forall c l us, List.length us = List.length l -> List.length (W c l us) = List.length l)
+  /\ (forall k reqs, of_kind k reqs = filter (fun r => kind_eqb (kind_of r) k) reqs)
+  /\ (forall m ws, mset m ws = match ws with [] => None | _ :: _ => Some (Node (msgset_name m) None ws) end)
+  /\ (msgset_name MBank = T "BANKMSGSRQV1" /\ msgset_name MCc = T "CREDITCARDMSGSRQV1" /\ msgset_name MInv = T "INVSTMTMSGSRQV1").
+Proof.
+  split; [exact statements_closed|]. split; [exact W_length|]. split; [reflexivity|]. split; [reflexivity|].
+  repeat split; vm_compute; reflexivity.
+Qed.
